@@ -10,18 +10,19 @@ WORKER_LABELS = ["cq.rlock.acq", "cq.r.poll", "cq.r.recv", "cq.sem.rel", "cq.rlo
 
 DEFAULTS = dict(ev="", t=-1, u="", pid=-1, kind="", outcome="", bpp=False, twe=False, shut=False, etype="", good=False,
                 cause=False, res=False, wait=False, kill=False, how="", code=0, n=0, same=False, eid=-1, oldeid=-1, maxw=0,
-                nproc=0, broken=False, shutdown=False, oldbroken=False, oldshutdown=False, late=False, pending=[], blockedusers=[],
+                nproc=0, broken=False, shutdown=False, oldbroken=False, oldshutdown=False, late=False, nbefore=0, kept=0, pending=[], blockedusers=[],
                 blocked=[], liveprocs=[], unreaped=[], died=[], mgmtalive=False)
 
 
 def normalise(tr, scn):
-    out = [dict(DEFAULTS, ev="cfg", maxw=scn["exec"]["max_workers"], res=bool(scn["exec"].get("init_fail")))]
+    out = [dict(DEFAULTS, ev="cfg", maxw=scn["exec"]["max_workers"], res=bool(scn["exec"].get("init_fail")),
+                wait=scn["exec"].get("timeout") is not None, kill=len(scn["users"]) > 1)]
     for e in tr:
         d = dict(DEFAULTS)
         ev = e["ev"]
         d["ev"] = ev
         for k in ("t", "u", "pid", "kind", "outcome", "good", "res", "wait", "kill", "how", "n", "same", "maxw", "nproc",
-                  "broken", "shutdown", "late"):
+                  "broken", "shutdown", "late", "nbefore", "kept"):
             if k in e and e[k] is not None:
                 d[k] = e[k]
         if "code" in e:
@@ -181,7 +182,44 @@ def fam_init(rng):
                 users={"u1": u1}, fam="init")
 
 
-FAMILIES = dict(respawn_crash=fam_respawn_crash, mixed=fam_mixed, crash=fam_crash, kill=fam_kill, timeout=fam_timeout, saturation=fam_saturation, init=fam_init)
+def fam_reusable(rng):
+    m0 = rng.choice([1, 2, 3])
+    tmo = rng.choice([None, None, 0.5])
+    tid = [0]
+
+    def sub(kind="ok"):
+        tid[0] += 1
+        return ["submit", tid[0], kind]
+    u1 = []
+    cur = m0
+    for _ in range(rng.randint(1, 4)):
+        for _ in range(rng.randint(0, 3)):
+            u1.append(sub(rng.choice(["ok", "ok", "raise", "big"])))
+        r = rng.random()
+        if r < 0.25:
+            u1.append(["wait_all"])
+        if r < 0.1:
+            u1 += [sub("crash"), ["wait", tid[0]]]
+        elif r < 0.2:
+            u1 += [["wait_all"], ["shutdown", rng.random() < 0.7, False]]
+        n = rng.choice([1, 2, 3, 4])
+        kw = {}
+        if rng.random() < 0.15:
+            kw["reuse"] = rng.choice([True, False])
+        if rng.random() < 0.1:
+            kw["kill_workers"] = True
+        u1.append(["reuse", n, kw])
+        cur = n
+    for _ in range(rng.randint(0, 2)):
+        u1.append(sub("ok"))
+    u1 += [["wait_all"], ["shutdown", True, False]]
+    users = {"u1": u1}
+    if rng.random() < 0.25:
+        users["u2"] = [["reuse", rng.choice([1, 2, 3]), {}], ["submit", 60, "ok"], ["wait", 60]]
+    return dict(exec=dict(kind="reusable", max_workers=m0, timeout=tmo), users=users, fam="reusable")
+
+
+FAMILIES = dict(reusable=fam_reusable, respawn_crash=fam_respawn_crash, mixed=fam_mixed, crash=fam_crash, kill=fam_kill, timeout=fam_timeout, saturation=fam_saturation, init=fam_init)
 
 
 def policies(rng, fam):
